@@ -237,6 +237,38 @@ def s5(ctx, rep, clause="S5"):
                 witness=cfg.describe_path(p) if p else None)
 
 
+def s5b(ctx, rep, clause="S5"):
+    """the conditions the life-cycle actions are taken under (guard table; found thin by the generic mutation audit)"""
+    from .common import require_guard, call_nodes
+    P = ctx.P
+    f = P.method("Tuner", "_update_running_trials")
+    # the status variable of the second loop: nested target of `for id, (trial, status) in ...items()`
+    loops = [x for x in walk_shallow(f.node) if isinstance(x, ast.For) and isinstance(x.target, ast.Tuple) and len(x.target.elts) == 2
+             and isinstance(x.target.elts[1], ast.Tuple)]
+    if len(loops) != 1:
+        raise AnchorError("Tuner._update_running_trials: status loop not found")
+    sv = U(loops[0].target.elts[1].elts[1])
+    nodes = [n for n, c in call_nodes(ctx, f, lambda c: fn_name(c) == "on_trial_complete" and "scheduler" in U(c.func))]
+    require_guard(ctx, rep, clause, f, "Tuner._update_running_trials: scheduler.on_trial_complete | status == completed", nodes,
+                  [(f"{sv} == Status.completed", lambda a: a[0] == "eq" and a[3] is True and {a[1], a[2]} == {sv, "Status.completed"})],
+                  "the scheduler is told that a trial completed which has not (or is not told when one has)")
+    g = P.method("Tuner", "_schedule_new_task")
+    sugg = [U(t.targets[0]) for t in walk_shallow(g.node) if isinstance(t, ast.Assign) and isinstance(t.value, ast.Call) and fn_name(t.value) == "suggest"]
+    if len(sugg) != 1:
+        raise AnchorError("Tuner._schedule_new_task: `suggestion = scheduler.suggest(...)` not found")
+    flag = f"{sugg[0]}.spawn_new_trial_id"
+    for meth, truth in (("start_trial", True), ("resume_trial", False)):
+        nodes = [n for n, c in call_nodes(ctx, g, lambda c, m=meth: fn_name(c) == m and "trial_backend" in U(c.func))]
+        require_guard(ctx, rep, clause, g, f"Tuner._schedule_new_task: backend.{meth} | spawn_new_trial_id is {truth}", nodes,
+                      [(f"{'' if truth else 'not '}{flag}", lambda a, t=truth: a[0] == "truth" and a[1] == flag and a[2] is t)],
+                      "a suggestion to resume a paused trial starts a new trial instead (or a new configuration is run by resuming an old trial)")
+    h = P.method("TrialBackend", "stop_all")
+    nodes = [n for n, c in call_nodes(ctx, h, lambda c: fn_name(c) == "stop_trial")]
+    require_guard(ctx, rep, clause, h, "TrialBackend.stop_all: stop_trial | the trial is in progress", nodes,
+                  [("status == Status.in_progress", lambda a: a[0] == "eq" and a[3] is True and "Status.in_progress" in (a[1], a[2]))],
+                  "running trials are left running at the end (and finished ones are 'stopped')")
+
+
 def _dom_atoms(cfg, nid):
     """atoms of the branch conditions every path to nid must take"""
     from ..engine import dominating_edges
@@ -415,6 +447,7 @@ def run(ctx, rep, tier="quick"):
     s3(ctx, rep)
     s4(ctx, rep)
     s5(ctx, rep)
+    s5b(ctx, rep)
     s6(ctx, rep)
     s7(ctx, rep)
     s8(ctx, rep)
